@@ -484,8 +484,10 @@ PROPS["C26"] = {
     "level_text": "PARTIAL proof + executed composition. Proved for ALL states of the two hand-written models: the agreements between client and gateway on which the exchanges "
                   "rest — c26_registration_id_stable / c26_partial_burst_same_id (a topic being registered keeps its TopicID: every REGISTER of a burst carries the same ID), "
                   "c26_client_register_new / _repeated / _conflict (the client accepts a new name and a repeated (name, ID), refuses only a clash), c26_subscribe_keeps_id (no second "
-                  "TopicID for a registered name), c26_sleep_from_awake_silent with c11_wake (both sides agree on 'asleep' after PINGRESP without a DISCONNECT), c26_spec_* (sanity of the "
-                  "specification). The property at full strength (C26Full: every script, composed model = specification) is stated and NOT proved; it is decided script by script: the "
+                  "TopicID for a registered name), c26_sleep_from_awake_silent with c11_wake (both sides agree on 'asleep' after PINGRESP without a DISCONNECT), the topic tables of the two sides agree (Agree) — kept by "
+                  "every REGISTER / SUBSCRIBE / gateway-REGISTER exchange (c26_agree_*) and, by induction, by ANY history of REGISTER / SUBSCRIBE exchanges from the initial states "
+                  "(reach_inv, c26_partial_publish_after_any_history: a Publish on a registered name then reaches the broker under exactly that name; the models' handlers are shown "
+                  "to be such steps), c26_spec_* (sanity of the specification; c26_spec_agrees_with_broker). The property at full strength (C26Full: every script, composed model = specification) is stated and NOT proved; it is decided script by script: the "
                   "system suite runs the REAL client library against the REAL gateway (Gateway.ListenAndServe, UDP loopback) and a conforming MQTT broker, runs the composed Lean model "
                   "(client model || lossless link || gateway model || broker) on the same scripts (correspondence) and evaluates the specification Spec/System.lean on the "
                   "implementation's own results (every call's result, the broker's received publishes and subscription table, every expected handler invocation). Three genuine "
